@@ -28,8 +28,11 @@ type c11Case struct {
 	Early   bool   `json:"early,omitempty"`  // the late requests are issued without waiting for quiescence after GOAWAY
 	// per request with a body: 0 buffered 100+i octets, 1 SetBodyStream (declared) 100+i octets, 2 SetBodyStream of
 	// unknown length and 70000 octets, 3 buffered 70000 octets; the last two are still waiting for window when the
-	// GOAWAY / RST_STREAM / early answer arrives (the scripted server grants none)
+	// GOAWAY / RST_STREAM / early answer arrives (the scripted server grants none); 4 (last request only): streamed
+	// from a reader that blocks until the first connection is gone
 	BodyKind []int `json:"bodykind,omitempty"`
+	// GrantDrop: with Drop, WINDOW_UPDATEs for everything still pending are written immediately before the disconnect
+	GrantDrop bool `json:"grantdrop,omitempty"`
 }
 
 func c11Run(c c11Case) Outcome {
@@ -42,6 +45,13 @@ func c11Run(c c11Case) Outcome {
 	if c0 == nil {
 		return Outcome{Inconcl: "no connection"}
 	}
+	for i := range c.BodyKind {
+		if c.BodyKind[i] == 4 && i == c.N-1 && i < len(c.Bodies) && c.Bodies[i] {
+			// like TCP: what the client writes after our FIN is accepted by its socket, so its own farewell GOAWAY
+			// does not fail and the write that finally fails is one on the connection the client itself has closed
+			c0.CliRaw.WritesSurvivePeerClose(true)
+		}
+	}
 	q := func(where string) *Outcome {
 		if ok, d := env.Quiesce(); !ok {
 			return &Outcome{Inconcl: "no quiescence " + where + ": " + d}
@@ -49,6 +59,7 @@ func c11Run(c c11Case) Outcome {
 		return nil
 	}
 	calls := map[string]*speer.Call{}
+	gated := false
 	wantBody := map[string][]byte{}
 	var tags []string
 	for i := 0; i < c.N; i++ {
@@ -64,6 +75,13 @@ func c11Run(c c11Case) Outcome {
 					r.BodyLen, r.Mode, r.Chunks = 70000, 2, []int{5000}
 				case 3:
 					r.BodyLen = 70000
+				case 4:
+					// the last request only: its body comes from a reader that blocks until the first connection
+					// is gone, so the client's write loop sits in Read with the HEADERS out and the body to come
+					if i == c.N-1 {
+						r.BodyLen, r.Mode, r.Gate = 3000, 2, true
+						gated = true
+					}
 				}
 			}
 		}
@@ -249,6 +267,17 @@ func c11Run(c c11Case) Outcome {
 			return *o
 		}
 	}
+	if c.Drop && c.GrantDrop {
+		// window for every upload that is still pending, and the disconnect right behind it: the client's write loop
+		// wakes up to send DATA on a connection its read loop is closing at that very moment (a write that fails
+		// then must not be taken for "nothing of this request was ever sent")
+		_ = c0.Write(rawframe.Append(nil, rawframe.WindowUpdate, 0, 0, rawframe.U32(1<<20)))
+		for _, t := range tags {
+			if id := idOf[t]; id != 0 {
+				_ = c0.Write(rawframe.Append(nil, rawframe.WindowUpdate, 0, id, rawframe.U32(1<<20)))
+			}
+		}
+	}
 	if c.Drop {
 		_ = c0.SrvRaw.Close()
 	}
@@ -262,6 +291,14 @@ func c11Run(c c11Case) Outcome {
 	_ = c0.SrvRaw.Close()
 	if o := q("after closing the first connection"); o != nil {
 		return *o
+	}
+	if gated {
+		// the slow body source delivers now, on a connection that is gone: the write that fails says nothing
+		// about whether the request's HEADERS were sent (they were)
+		env.ReleaseBodies()
+		if o := q("after the gated body was released"); o != nil {
+			return *o
+		}
 	}
 	if o := serveOthers(); o != nil {
 		return *o
@@ -378,10 +415,11 @@ func c11Gen(t *rapid.T) c11Case {
 		Drop: rapid.Bool().Draw(t, "drop"), Late: rapid.IntRange(0, 2).Draw(t, "late"), Early: rapid.Bool().Draw(t, "early")}
 	for i := 0; i < n; i++ {
 		c.Bodies = append(c.Bodies, rapid.Bool().Draw(t, "body"))
-		c.BodyKind = append(c.BodyKind, rapid.SampledFrom([]int{0, 0, 1, 2, 2, 3}).Draw(t, "bodykind"))
+		c.BodyKind = append(c.BodyKind, rapid.SampledFrom([]int{0, 0, 1, 2, 2, 3, 4, 4}).Draw(t, "bodykind"))
 		c.Partial = append(c.Partial, rapid.IntRange(0, 2).Draw(t, "partial"))
 		c.Answer = append(c.Answer, rapid.IntRange(0, 3).Draw(t, "answer") != 0)
 	}
+	c.GrantDrop = rapid.Bool().Draw(t, "grantdrop")
 	c.Order = rapid.SliceOfN(rapid.IntRange(0, 4), 0, 8).Draw(t, "order")
 	if rapid.IntRange(0, 4).Draw(t, "refuse") == 0 {
 		c.Refuse = rapid.IntRange(1, n).Draw(t, "refusek")
